@@ -60,3 +60,27 @@ Theorem C08_run_never_raises : forall p fuel s, program_ok p (cfg s) -> init_ok 
   end.
 Proof. exact run_wf. Qed.
 Print Assumptions C08_run_never_raises.
+
+(* ---- whole programs: what was checked is what is substituted --------------------------------------------- *)
+From Hera.Proofs Require Import C08_Symtab C08_Program.
+
+(* In a program the checker accepts (tokens as the parser builds them), the symbol table in force when any
+   operation is type-checked is contained, binding for binding, in the table the preprocessor later
+   substitutes from: a name is never re-bound (that is a redeclaration error) and never disappears.  So the
+   operand values that C08_accepted_op_valid range-checks are the values that reach the instruction. *)
+Theorem C08_symbol_table_only_grows : forall c ops st msgs,
+  Forall (fun o => Forall tok_wf (o_toks o)) ops ->
+  typecheck c ops = (st, msgs) -> has_errors msgs = false ->
+  forall a b, ops = a ++ b ->
+    ext (tc_st (fold_left (typecheck_step c) a
+                  (mktc (fst (get_labels c ops)) false (check_redecl ops [] ++ snd (get_labels c ops))))) st.
+Proof. exact accepted_symtab_stable. Qed.
+Print Assumptions C08_symbol_table_only_grows.
+
+(* declared names of a program without redeclaration errors are pairwise different *)
+Theorem C08_declared_names_distinct : forall ops seen, has_errors (check_redecl ops seen) = false ->
+  forall a o b s, ops = a ++ o :: b -> decl_name o = Some s ->
+    existsb (py_eqb s) seen = false /\ (forall x, In x (decls a) -> py_eqb s x = false) /\
+    (forall y, In y (decls b) -> py_eqb y s = false).
+Proof. exact redecl_clean. Qed.
+Print Assumptions C08_declared_names_distinct.
